@@ -21,6 +21,15 @@ func isData(f []byte) bool { return len(f) >= 14 && f[9] == 0 }
 // originates must be the factory frames.
 func wirePass(c *vh.Ctx) {
 	r := c.Rng
+	// senders of two generations in their write paths at the same time
+	reps := 6
+	if c.Tier == "thorough" {
+		reps = 40
+	}
+	for rep := 0; rep < reps; rep++ {
+		crossGenOverlap(c, rep)
+	}
+	crossGenRace(c)
 	nLinks := 3
 	perLink := c.N / nLinks
 	if perLink < 20 {
